@@ -240,13 +240,35 @@ def judge(prop, tier):
     st = copy.deepcopy(recs[0])
     st["b"]["sets"] = st["b"]["sets"][1:] if st["b"]["sets"] else [["x"]]
     recs.append(st)
-    rfile = os.path.join(d, "R-%s.ndjson" % tier)
-    write_ndjson(rfile, recs)
-    res = run_tlc("MC_Order", "MC_Order.cfg", env={"RFILE": rfile}, workers=4, timeout=1800, xmx="4g", job="p8-order")
-    if not res.ok:
-        log(res.raw[-2000:])
-        raise ToolError("TLC judge failed for C15: %s" % res.error)
-    vs = [v for v in res.payload("V") if v]
+    # sharded: one TLC run per 3000 records (the thorough tier has tens of thousands of views)
+    CH = 3000
+    chunks = [(k, recs[k:k + CH]) for k in range(0, len(recs), CH)]
+
+    def judge_chunk(ch):
+        k, rs = ch
+        rfile = os.path.join(d, "R-%s-%d.ndjson" % (tier, k))
+        write_ndjson(rfile, rs)
+        r = run_tlc("MC_Order", "MC_Order.cfg", env={"RFILE": rfile}, workers=2, timeout=3600, xmx="3g",
+                    job="p8-order-%d" % k)
+        if not r.ok:
+            log(r.raw[-2000:])
+            raise ToolError("TLC judge failed for C15: %s" % r.error)
+        return k, r
+    vs = []
+    states = generated = 0
+    wall = 0.0
+    for k, r in parallel(judge_chunk, chunks, jobs=4):
+        states += r.distinct
+        generated += r.generated
+        wall += r.wall
+        for v in r.payload("V"):
+            if v:
+                vs.append(dict(v, i=v["i"] + k))
+
+    class _Res:
+        pass
+    res = _Res()
+    res.distinct, res.generated, res.wall = states, generated, wall
     if not any(v["i"] == len(recs) for v in vs):
         raise ToolError("binding self-test failed for C15")
     for v in vs:
